@@ -136,6 +136,9 @@ func TestC13Sweep(t *testing.T) {
 type c13ItemCase struct {
 	Kind  string `json:"kind"`
 	Count int    `json:"count"`
+	// Ellipsis (lists only): the last of the Count entries is an ellipsis "..." - an entry like any other
+	// for the limit, which is defined on the number of entries
+	Ellipsis bool `json:"ellipsis,omitempty"`
 }
 
 func init() { registerReplay("c13item", checkC13Item) }
@@ -192,6 +195,20 @@ func checkC13Item(c c13ItemCase) (ci caseInfo, err error) {
 	ci.label("item:%s", map[bool]string{true: "constructible", false: "beyond-limit"}[within])
 	var item ast.ItemNode
 	panicked, msg := try(func() { item = buildUniform(c.Kind, c.Count) })
+	if c.Ellipsis && c.Kind == model.L && c.Count >= 2 {
+		ci.Key += "/ellipsis"
+		ci.label("list-with-ellipsis-entry")
+		args := uniformArgs(model.L, c.Count)
+		args[c.Count-1] = "..."
+		panicked, msg = try(func() { item = ast.NewListNode(args...) })
+		if within != !panicked {
+			return ci, fmt.Errorf("list of %d entries, the last one an ellipsis (limit 16,777,215 entries): refused=%v (%s)", c.Count, panicked, msg)
+		}
+		if !panicked && item.Size() != c.Count {
+			return ci, fmt.Errorf("list of %d entries, the last one an ellipsis: Size() = %d", c.Count, item.Size())
+		}
+		return ci, nil
+	}
 	if c.Kind == model.A {
 		// the same string through the other way an ASCII item comes into being: filling a variable
 		var viaFill ast.ItemNode
@@ -412,6 +429,9 @@ func TestC13Items(t *testing.T) {
 				continue
 			}
 			runCase[c13ItemCase](t, "C13", "c13item", checkC13Item, c13ItemCase{Kind: kind, Count: count})
+			if kind == model.L && count >= 2 && (count <= 65537 || count == maxc+1 || isThorough()) {
+				runCase[c13ItemCase](t, "C13", "c13item", checkC13Item, c13ItemCase{Kind: kind, Count: count, Ellipsis: true})
+			}
 		}
 	}
 }
